@@ -24,8 +24,11 @@ from ``vgi_rpc/http/server/_middleware.py``
 
 from ``vgi_rpc/http/server/_app_stream.py`` / ``_app_unary.py`` / ``_resources.py``
   * ``httpMsgHelper``  every access-log ``error_message`` there is ``_truncate_error_message(<exception>)``;
-  * ``okStatus`` and the ``http_status`` an error path stores into its outcome: ``initRaise``, ``exchangeInitFail``,
-    ``exchangeRaise``, ``exchangeOvershoot``, ``producerTurn`` (``none`` = the path leaves the default), ``unaryErr``;
+  * ``okStatus`` and the ``http_status`` each error path stores into its outcome (``none`` = the path leaves the default):
+    ``initRaise``, ``exchangeInitFail``, ``exchangeOvershoot``, ``producerTurn``, ``unaryErr``, and — one per error path of
+    ``_run_http_exchange_turn``, told apart by the call the path's ``try`` guards — ``exchangeResolve``
+    (``resolve_external_location``), ``exchangeCoerce`` (``_coerce_input_batch``), ``exchangeRaise`` (``state.process``);
+    an error path guarding none of these fails the extraction;
   * ``telemetryOnce``  ``_dispatch_telemetry`` emits in the ``finally`` of its only ``try`` and nowhere else;
 
 from ``vgi_rpc/logging_utils.py`` (``VgiAccessLogFormatter.format``)
@@ -484,31 +487,66 @@ def http_shapes() -> dict[str, object]:
             return int(getattr(HTTPStatus, v.attr))
         raise Unsupported("http_status value is not HTTPStatus.X")
 
-    def error_blocks(fn: str) -> list[int | None]:
-        """For each statement list of the function that stores outcome.status = "error": the http_status it stores."""
-        f = _func(st, fn)
-        out: list[int | None] = []
-        for n in ast.walk(f):
-            for fld in ("body", "orelse", "finalbody", "handlers"):
-                blk = getattr(n, fld, None)
-                if not isinstance(blk, list) or not blk or not isinstance(blk[0], ast.stmt):
-                    continue
-                sets_err = False
-                hs: int | None = None
-                for s in blk:
-                    if isinstance(s, ast.Assign) and len(s.targets) == 1 and isinstance(s.targets[0], ast.Attribute) \
-                            and isinstance(s.targets[0].value, ast.Name) and s.targets[0].value.id == "outcome":
-                        if s.targets[0].attr == "status" and isinstance(s.value, ast.Constant) and s.value.value == "error":
-                            sets_err = True
-                        if s.targets[0].attr == "http_status":
-                            hs = status_name(s.value)
-                if sets_err:
-                    out.append(hs)
-        if not out:
-            raise Unsupported(f"{fn}: no error block")
-        if len(set(out)) != 1:
-            raise Unsupported(f"{fn}: error blocks disagree on http_status: {out}")
+    def _called(stmts: list[ast.stmt]) -> set[str]:
+        """Names of the functions / methods called anywhere in the statements."""
+        out: set[str] = set()
+        for s_ in stmts:
+            for c in ast.walk(s_):
+                if isinstance(c, ast.Call):
+                    if isinstance(c.func, ast.Name):
+                        out.add(c.func.id)
+                    elif isinstance(c.func, ast.Attribute):
+                        out.add(c.func.attr)
         return out
+
+    def error_paths(fn: str) -> list[tuple[set[str], int | None]]:
+        """Every error path of the function = a statement list that stores ``outcome.status = "error"``: the calls it guards
+        (for an ``except`` handler: the calls of its ``try`` body; otherwise the calls of the block itself) and the
+        http_status it stores (``None`` = it leaves the default)."""
+        f = _func(st, fn)
+        out: list[tuple[set[str], int | None]] = []
+
+        def scan(blk: list[ast.stmt], guarded: list[ast.stmt]) -> None:
+            sets_err = False
+            hs: int | None = None
+            for s_ in blk:
+                if isinstance(s_, ast.Assign) and len(s_.targets) == 1 and isinstance(s_.targets[0], ast.Attribute) \
+                        and isinstance(s_.targets[0].value, ast.Name) and s_.targets[0].value.id == "outcome":
+                    if s_.targets[0].attr == "status" and isinstance(s_.value, ast.Constant) and s_.value.value == "error":
+                        sets_err = True
+                    if s_.targets[0].attr == "http_status":
+                        hs = status_name(s_.value)
+            if sets_err:
+                out.append((_called(guarded), hs))
+
+        for n in ast.walk(f):
+            if isinstance(n, ast.Try):
+                for h in n.handlers:
+                    scan(h.body, n.body)
+            for fld in ("body", "orelse", "finalbody"):
+                blk = getattr(n, fld, None)
+                if isinstance(blk, list) and blk and isinstance(blk[0], ast.stmt) and not isinstance(n, ast.ExceptHandler):
+                    scan(blk, blk)
+        if not out:
+            raise Unsupported(f"{fn}: no error path")
+        return out
+
+    def path_status(fn: str, guards: str | None) -> int | None:
+        """The http_status of the error path(s) of ``fn`` that guard a call of ``guards`` (``None``: of every path);
+        several such paths must agree."""
+        ps = error_paths(fn)
+        sel = [hs for calls, hs in ps if guards is None or guards in calls]
+        if not sel:
+            raise Unsupported(f"{fn}: no error path guards {guards}()")
+        if len(set(sel)) != 1:
+            raise Unsupported(f"{fn}: error paths guarding {guards or 'anything'} disagree on http_status: {sel}")
+        return sel[0]
+
+    def other_paths(fn: str, known: tuple[str, ...]) -> None:
+        """Every error path of ``fn`` must guard one of the known calls (a new kind of path fails the extraction)."""
+        for calls, hs in error_paths(fn):
+            if not any(k in calls for k in known):
+                raise Unsupported(f"{fn}: unrecognised error path (http_status {hs}) guarding {sorted(calls)[:8]}")
 
     # default of _DispatchOutcome.http_status
     ok_status = None
@@ -536,13 +574,16 @@ def http_shapes() -> dict[str, object]:
     outer = [s for s in ft.body if isinstance(s, ast.Try)]
     once = (len(calls) == 1 and len(outer) == 1 and any(c in list(ast.walk(ast.Module(body=outer[0].finalbody, type_ignores=[])))
                                                           for c in calls))
+    other_paths("_run_http_exchange_turn", ("resolve_external_location", "_coerce_input_batch", "process"))
     return {
         "helper": helper_ok, "ok": ok_status,
-        "initRaise": error_blocks("_run_stream_init_sync")[0],
-        "exchangeInitFail": error_blocks("_run_http_exchange_init")[0],
-        "exchangeRaise": error_blocks("_run_http_exchange_turn")[0],
-        "exchangeOvershoot": error_blocks("_exchange_error_response")[0],
-        "producerTurn": error_blocks("_run_http_producer_turn")[0],
+        "initRaise": path_status("_run_stream_init_sync", None),
+        "exchangeInitFail": path_status("_run_http_exchange_init", None),
+        "exchangeResolve": path_status("_run_http_exchange_turn", "resolve_external_location"),
+        "exchangeCoerce": path_status("_run_http_exchange_turn", "_coerce_input_batch"),
+        "exchangeRaise": path_status("_run_http_exchange_turn", "process"),
+        "exchangeOvershoot": path_status("_exchange_error_response", None),
+        "producerTurn": path_status("_run_http_producer_turn", None),
         "unaryErr": vals[-1][1],
         "telemetryOnce": once,
     }
@@ -639,6 +680,11 @@ def okStatus : Nat := {hs["ok"]}
 def unaryErr : Nat := {hs["unaryErr"]}
 def initRaise : Option Nat := {_opt_nat(hs["initRaise"])}
 def exchangeInitFail : Option Nat := {_opt_nat(hs["exchangeInitFail"])}
+/-- `_run_http_exchange_turn` has three error paths, told apart by the call their `try` guards: resolving an external
+input pointer, coercing the input batch to the declared schema (the caller's fault), and `state.process()` + token mint +
+flush (the method's fault) -/
+def exchangeResolve : Option Nat := {_opt_nat(hs["exchangeResolve"])}
+def exchangeCoerce : Option Nat := {_opt_nat(hs["exchangeCoerce"])}
 def exchangeRaise : Option Nat := {_opt_nat(hs["exchangeRaise"])}
 def exchangeOvershoot : Option Nat := {_opt_nat(hs["exchangeOvershoot"])}
 def producerTurn : Option Nat := {_opt_nat(hs["producerTurn"])}
